@@ -319,6 +319,13 @@ local f, err = load(table.concat(t, "\n")) return f == nil`},
 	{"load-globals-in-deep-blocks", `local d = math.min($N // 2, 9000) local t = {} for i = 1, d do t[#t + 1] = "do local v" .. i .. " = 0" end
 for i = 1, $N do t[#t + 1] = "g = g" end for i = 1, d do t[#t + 1] = "end" end
 local f, err = load(table.concat(t, "\n")) return f == nil`},
+	// $N locals in one block, then $N jumps back to a label in front of them
+	{"load-gotos-out-of-many-scopes", `local t = {"local x = 0", "::top::"} for i = 1, $N do t[#t + 1] = "local a" .. i .. " = " .. i end
+for i = 1, $N do t[#t + 1] = "if x == " .. i .. " then goto top end" end
+local f, err = load(table.concat(t, "\n")) return f == nil`},
+	// $N labels declared in nested blocks of one function
+	{"load-many-labels-in-nested-scopes", `local t = {} for i = 1, $N do t[#t + 1] = "local b" .. i .. " = 0 ::l" .. i .. ":: b" .. i .. " = 1" end
+local f, err = load(table.concat(t, "\n")) return f == nil`},
 	// a chunk that is one long sequence of statements on globals
 	{"load-many-statements", `local t = {} for i = 1, $N * 4 do t[#t + 1] = "x = (x or 0) + " .. i end
 local f, err = load(table.concat(t, "\n")) return f == nil`},
